@@ -54,8 +54,11 @@ def _exec_f(f):
 def dump(path, what):
     from harness import _C09_lib as L
 
-    with Pool(9) as pool:
-        rows = [r for part in pool.map(_slice_f if what == "slice" else _exec_f, range(len(L.FUNCS)), chunksize=1) for r in part]
+    import os
+
+    fs = [int(x) for x in os.environ["C09_FS"].split(",")] if os.environ.get("C09_FS") else list(range(len(L.FUNCS)))
+    with Pool(int(os.environ.get("C09_PROCS", "9"))) as pool:
+        rows = [r for part in pool.map(_slice_f if what == "slice" else _exec_f, fs, chunksize=1) for r in part]
     with open(path, "w") as fh:
         json.dump(rows, fh)
     print(path, len(rows), "failing tuples")
